@@ -166,6 +166,7 @@ structure Stack where
   found : TStore SvcKey := []
   storeLog : List (Bool × SvcKey × Addr) := []   -- ghost: every store-level notification (true = offered) in order
   sendLog : List (Dest × (Bool × Nat)) := []     -- ghost: every (destination, (reboot flag, session id)) send_sd drew from the session storage
+  flushLog : List (Dest × List SDEntry) := []    -- ghost: every batch of queued entries handed to send_sd (zero timeout: singletons; else a closed window)
   findTask : Option Nat := none
   -- ServiceSubscriber
   alive : Bool := false
@@ -226,6 +227,10 @@ def sendSd (s : Stack) (entries : List SDEntry) (remote : Dest) : Stack :=
     | none => s.emit (.raised .struct)
     | some b => s.emit (.send remote b)
 
+/-- a batch of queued entries leaves the announcer: `send_sd(batch, dest)`, recorded in the ghost `flushLog` -/
+def flushTo (s : Stack) (es : List SDEntry) (d : Dest) : Stack :=
+  ({ s with flushLog := s.flushLog ++ [(d, es)] }).sendSd es d
+
 def latestCollector (s : Stack) (d : Dest) : Option Collector :=
   s.collectors.reverse.find? (fun c => decide (c.dest = d))
 
@@ -241,7 +246,7 @@ def appendCollector (s : Stack) (cid : Nat) (e : SDEntry) : Stack :=
 /-- `ServiceAnnouncer.queue_send(entry, remote)` -/
 def queueSend (s : Stack) (e : SDEntry) (remote : Dest) : Stack :=
   let s := s.emit (.queued remote e)
-  if s.tm.sendCollectionTimeout = 0 then s.sendSd [e] remote else
+  if s.tm.sendCollectionTimeout = 0 then s.flushTo [e] remote else
   match s.latestCollector remote with
   | some c =>
     if c.done then
@@ -258,7 +263,7 @@ def collectorTimeout (s : Stack) (cid : Nat) : Stack :=
   | none => s
   | some c =>
     let s := { s with collectors := s.collectors.map (fun (c : Collector) => if c.cid = cid then { c with done := true } else c) }
-    s.sendSd c.data c.dest
+    s.flushTo c.data c.dest
 
 /-! #### tasks -/
 
